@@ -59,7 +59,14 @@ def _m2():
     partition, re-assignment of the pattern, label/trait changes."""
     cfg = mastercfg.m2()
     cfg['monitors'] = []
+    # /traits lists the traits in another order than the (sorted) server
+    # records first mention them
+    cfg['traits'] = ['t2', 't1']
+    # ... and s1 (the only default-partition server with a trait) joins
+    # while the master runs
+    cfg['servers']['s1']['initial'] = False
     cfg['events'] = mastercfg.ev(
+        ('srv+', 's1', 0),
         ('app+', 'pl'), ('app+', 't1'), ('app+', 'hi'), ('app-', 0),
         ('alloc', 1), ('alloc', 2), ('alloc', 0),
         ('srv', 's0', 1), ('srv', 's0', 0), ('srv', 's1', 1),
